@@ -216,6 +216,10 @@ def _u(s):
 ODD_NAMES = ['1', '0', '-1', '+1', '007', '1e3', '0x10', '1_000', _u('\u0661\u0662\u0663'), _u('\u00b2'), _u('\u2460'), _u('\u0be7'), _u('\uff11\uff12'), _u('\u00bd'),
              '%s', '%d', '%(x)s', '%', '{}', '{0}', '{x}', '{', '}', '\\', '"', "'", '\x1b[31m', '\x00', '\xff\xfe', _u('\u0085'), _u('\u2028'),
              'a' * 63, 'a' * 64, 'a' * 65, 'a' * 1000, ' ', '\t', '\r', 'a\nb', '-', '--', '@', 'a@', '@b', '=', 'a=b', 'none', 'None', 'null', 'true', 'nan', 'inf',
+             # names of a known family with a field missing, empty or doubled (the code that recognises families splits on '-' and '@')
+             'gss-', 'gss-krb5', 'gss--', 'gss-group1-sha1-', 'gss-group14-sha256-', 'gss-gex-sha1-', 'gss-gex-sha1--', 'gss-nistp256-sha256-', 'gss-curve25519-sha256-',
+             'diffie-hellman-group-exchange-', 'diffie-hellman-group', 'ecdsa-sha2-', 'ecdsa-sha2-1.3.132.0.10-', 'sk-', 'sk-@openssh.com', '@openssh.com', 'chacha20-poly1305@', '-etm@openssh.com', '-cbc', '-cert-v01@openssh.com',
+             'ssh-rsa-cert-v01@', 'hmac-', 'curve25519-sha256@', 'aes256-gcm@', 'ssh-', 'rsa-sha2-',
              'ext-info-s', 'kex-strict-s-v00@openssh.com', 'kex-strict-c-v00@openssh.com', 'SSH-2.0-x', '(rec)', '# general', '[fail]', '*', '.*', '\\d+']
 NAME_MODES = {'text': ([], False), 'json': (['-j'], False), 'verbose': (['-v'], False), 'batch': (['-b'], False), 'level': (['-l', 'warn'], False),
               'policy': (['-P', 'Hardened OpenSSH Server v9.9 (version 1)'], False), 'policy-json': (['-j', '-P', 'Hardened OpenSSH Server v9.9 (version 1)'], False),
@@ -554,7 +558,7 @@ def enumerate_faults(name, quick, rng):
             cases.append({'arch': name, 'faults': [['connect', idx, f]]})
     # a server that stops serving this client after its first k connections, in every way and for good
     for k in (1, 2, 3, 5):
-        for what, f in (('connect', 'close'), ('connect', 'refuse'), ('connect', 'stall'), ('banner', 'close'), ('kexinit', 'close'), ('kexinit', 'stall'), ('kexinit', ['disconnect', 12]), ('kexinit', ['disconnect', 2]),
+        for what, f in (('connect', 'close'), ('connect', 'refuse'), ('connect', 'stall'), ('banner', 'close'), ('banner', 'reset'), ('kexinit', 'reset'), ('kexinit', 'close'), ('kexinit', 'stall'), ('kexinit', ['disconnect', 12]), ('kexinit', ['disconnect', 2]),
                         ('kexdh_reply', 'close'), ('kexdh_reply', ['disconnect', 3]), ('gex_group', ['disconnect', 12]), ('gex_group', 'stall'), ('kexinit', ['type', 2])):
             if what == 'connect' and ARCH[name].get('client'):
                 continue
